@@ -165,10 +165,10 @@ class Gen:
             return ["add", base, C(self.rnd.choice([0, 4, 8, 0x10]), aw)]
         return base
 
-    def intrinsic(self, declared):
+    def intrinsic(self, declared, multi=False):
         w = self.widths[0]
         rd = [S("a", w)]
-        wr = [S("b", w)]
+        wr = [S("b", w)] + ([S("x", w), S("d", w)] if multi else [])
         return ["intrinsic", {"mnemonic": "intr", "str": "intr decl" if declared else "intr undeclared", "arguments": [],
                               "written": wr if declared else None, "read": rd if declared else None, "bytes": "0f05"}]
 
